@@ -15,15 +15,23 @@ func init() {
 		Level: "exploration",
 		Rule: "random histories over schema K combining unique/set/fk indexes, fk constraints, link and ref-counted link collections and plain + extended child stores; after every committed delete " +
 			"(including every entity of its cascade closure) an independent scan of the whole bolt file looks for the id as key, type-tagged key, value or type-tagged value; with p=0.6 the id is re-created " +
-			"and the structural monitor verifies it carries no inherited index entries, links, back references or child data; non-trivial = distinct (configuration, store, indexed?, referenced-from?, linked?, rc-linked?, child data kind) classes of deleted entities",
+			"and the structural monitor verifies it carries no inherited index entries, links, back references or child data; Part (b): one parent with two sibling child stores (own unique and set indexes; the second plain or extended), ids with data in one, the other or both, deleted through the parent or either child store, judged by the same whole-file scan without a model (and an operation that returned an error changed nothing). non-trivial = distinct (configuration, store, indexed?, referenced-from?, linked?, rc-linked?, child data kind) classes of deleted entities",
 		Assumptions: []string{"ids are disjoint from every value pool, so a hit is a trace of the entity", "under CascadeCreateUpdate dangling boss references are declared behaviour and excluded"},
 		Plan: func(tier core.Tier, seed int64) int {
 			if tier == core.Thorough {
-				return 48000
+				return 48000 + c06SibCases*20
 			}
-			return 720
+			return 720 + c06SibCases
 		},
 		Run: func(c *core.Ctx, idx int) {
+			nHist := 720
+			if c.Tier == core.Thorough {
+				nHist = 48000
+			}
+			if idx >= nHist {
+				c06Siblings(c, idx-nHist)
+				return
+			}
 			r := c.Rand()
 			cfg := kmodel.AllConfigs[idx%len(kmodel.AllConfigs)]
 			w := map[string]int{"create": 10, "update": 4, "patch": 4, "delete": 8, "deletewhere": 2, "addlinks": 4, "setlinks": 3, "removelinks": 1, "rcinc": 4, "rcdec": 1, "rcset": 1}
@@ -121,9 +129,10 @@ func init() {
 				}})
 		},
 		Promises: func(core.Tier) map[string][]string {
-			return map[string][]string{"deleted_entity": {"linked", "rc-linked", "referenced", "set-indexed", "child:" + kmodel.Mgrs, "child:" + kmodel.Ctrs}}
+			return map[string][]string{"deleted_entity": {"linked", "rc-linked", "referenced", "set-indexed", "child:" + kmodel.Mgrs, "child:" + kmodel.Ctrs},
+				"sibling": {"data in both child stores"}, "sibling_delete": {"parent+A+B through parent", "parent+A+B through childA", "parent+A+B through childB", "parent+A through childA", "parent through parent"}}
 		},
-		MinCounters: func(core.Tier) map[string]int64 { return map[string]int64{"deletes_scanned": 200, "recreated": 50} },
+		MinCounters: func(core.Tier) map[string]int64 { return map[string]int64{"deletes_scanned": 200, "recreated": 50, "sibling_deletes_scanned": 100} },
 	})
 }
 
